@@ -92,7 +92,7 @@ class T:
     def boolf(self, d):
         r = self.r
         f = r.choice(["yes", "no", "not", "and", "or", "exists", "empty", "in", "gt", "lt", "gte", "lte", "above", "below", "eq", "equals", "between", "starts_with", "last", "firstline",
-                      "firstscan", "valid", "failed", "any", "all", "after_blank", "has_dups"])
+                      "firstscan", "valid", "failed", "any", "all", "after_blank", "has_dups", "regex", "exact"])
         q = r.choice(QUALS_F)
         if f in ("yes", "no", "last", "firstline", "firstscan", "valid", "failed", "after_blank"):
             return ("F", f + (q if f != "yes" else ""), [])
@@ -110,6 +110,9 @@ class T:
             return ("F", f + q, [self.val(d + 1), self.num(), self.num()])
         if f == "starts_with":
             return ("F", f + q, [self.hdr(), self.s()])
+        if f in ("regex", "exact"):
+            # a regex term: /.../ with escaped slashes and backslash escapes inside
+            return ("F", f + q, [self.hdr(), ("RX", r.choice(["^a+$", "[a-z]{2}", "a\\/b", "x\\.y", "\\d+ ?", "^(x|y) z$", "\\\\w"]))])
         if f in ("any", "all"):
             return ("F", f + q, [])
         if f == "has_dups":
@@ -163,6 +166,8 @@ def toks(n):
         return [("str", '"' + n[1] + '"')]
     if k == "N":
         return [("num", ("-" if n[1] else "") + n[2] + ("." + n[3] if n[3] else ""))]
+    if k == "RX":
+        return [("closed", "/" + n[1] + "/")]
     if k == "V":
         return [("id", "@" + n[1])]
     if k == "H":
@@ -227,6 +232,8 @@ def arg_lit(n):
         return f"(ATermS {ulit(n[1])})"
     if k == "N":
         return f"(ATermN {blit(n[1])} {ulit(n[2])} {'None' if n[3] is None else '(Some ' + ulit(n[3]) + ')'})"
+    if k == "RX":
+        return f"(ATermR {ulit(n[1])})"
     if k == "V":
         return f"(AVar {ulit(n[1])})"
     if k == "H":
